@@ -307,8 +307,7 @@ def tld_functions(ctx, rule):
         if t[0] == "inl":
             t = t[2]
         src = P.show(r.term, maxdepth=8)
-        last = [x for x in P.subterms(r.term) if x[0] == "sub" and x[2] == ("const", -1) and x[1][0] == "method" and x[1][1] in ("rsplit", "split") and x[1][3] and x[1][3][0] == ("const", ".")
-                and x[1][2][0] == "attr" and x[1][2][2] == "hostname"]
+        last = [x for x in P.subterms(r.term) if F.last_piece(x, ".") is not None and F.last_piece(x, ".")[0] == "attr" and F.last_piece(x, ".")[2] == "hostname"]
         ctx.ob(rule, "has_valid_tld/last-label", bool(last), "has_valid_tld does not test the last label of the parsed hostname: %s" % src[:120], site, witness="a.b.fr")
     # delegation
     for name, meth in (("split_suffix", "split"), ("get_domain_name", "extract_domain_name"), ("has_valid_suffix", "has_valid_domain_name")):
@@ -328,7 +327,106 @@ def run(ctx):
     ctx.rule("R0", "special hosts: SPECIAL_HOSTS_RE (the walk bails out on it) accepts exactly localhost / dotted quads (optional port) / colon-bearing hex literals as whole strings")
     from .common_url import rule_special_hosts
     rule_special_hosts(ctx, "R0")
-    walk_shape(ctx, "R1")
-    offsets(ctx, "R2")
+    model_table(ctx, "R5")
     data_conditions(ctx, "R3")
     tld_functions(ctx, "R4")
+
+
+# ----------------------------------------------------------------------
+# model table: the trie class interpreted on a miniature rule list
+# ----------------------------------------------------------------------
+MINI_RULES = [
+    ("com", False), ("uk", False), ("co.uk", False), ("ch", False), ("jp", False), ("io", False),
+    ("*.ck", False), ("!www.ck", False),
+    ("*.kawasaki.jp", False), ("!city.kawasaki.jp", False),
+    ("*.firenet.ch", True), ("*.svc.firenet.ch", True),
+    ("github.io", True),
+]
+MINI_HOSTS = [
+    # explicit rules: bare suffix / one label / two labels / spelling variants / inside a url
+    "uk", "co.uk", "a.co.uk", "b.a.co.uk", "A.B.Co.UK", "a.co.uk.", "http://b.a.co.uk:8080/x?y#z", "a.com", "com",
+    # private rule under a public one
+    "github.io", "a.github.io", "b.a.github.io", "a.io",
+    # wildcard: the extra label is part of the suffix; the bare parent matches no rule
+    "ck", "x.ck", "a.x.ck", "b.a.x.ck",
+    # exception: the parent of the exception label is the suffix
+    "www.ck", "a.www.ck", "city.kawasaki.jp", "a.city.kawasaki.jp", "x.kawasaki.jp", "a.x.kawasaki.jp", "kawasaki.jp",
+    # wildcard beside a longer wildcard rule starting with the same label
+    "firenet.ch", "svc.firenet.ch", "a.svc.firenet.ch", "b.a.svc.firenet.ch", "x.firenet.ch", "a.x.firenet.ch",
+    # no rule at all
+    "foo.notatld", "notatld",
+]
+
+
+def _psl_reference(rules, host):
+    """publicsuffix.org algorithm over `rules` (no implicit '*' rule: an unlisted TLD has no valid suffix).
+    Returns (prefix, suffix) of the lower-cased host without trailing dot, or None."""
+    labels = host.lower().rstrip(".").split(".")
+    best = None
+    for rule, _ in rules:
+        exc = rule.startswith("!")
+        rl = rule.lstrip("!").split(".")
+        if len(rl) > len(labels):
+            continue
+        if all(r == "*" or r == l for r, l in zip(reversed(rl), reversed(labels))):
+            if exc:
+                best = (True, len(rl) - 1)
+                break
+            if best is None or len(rl) > best[1]:
+                best = (False, len(rl))
+    if best is None:
+        return None
+    n = best[1]
+    return ".".join(labels[:len(labels) - n]), ".".join(labels[len(labels) - n:])
+
+
+def model_table(ctx, rule):
+    ctx.rule(rule, "model table: SuffixTrie, interpreted (finite-domain interpreter, no import of ural) on a miniature rule list holding one instance of every rule kind {explicit, nested explicit, private, wildcard, exception under a wildcard, wildcard beside a longer rule with the same first label}, agrees with the publicsuffix.org algorithm on every host class {bare suffix, +1 label, +2 labels, upper case, trailing dot, inside a url, wildcard parent alone, exception label, no rule}: split / extract_suffix / extract_domain_name / has_valid_domain_name")
+    from ..microeval import instantiate, Raised
+    repo = ctx.repo
+    m = repo.mod("classes.suffix_trie")
+    cls = m.klass("SuffixTrie")
+    meths = {st.name: st for st in cls.body if isinstance(st, ast.FunctionDef)}
+    for need in ("add", "split", "extract_suffix", "extract_domain_name", "has_valid_domain_name"):
+        if need not in meths:
+            raise AnalysisError("SuffixTrie.%s not found" % need)
+        ctx.fn("ural.classes.suffix_trie.SuffixTrie." + need)
+    site = m.site(cls)
+
+    def call(trie, name, *a, **kw):
+        return run_function(repo, FuncRef(m, meths[name], "ural.classes.suffix_trie.SuffixTrie." + name), [trie] + list(a), kw)
+
+    try:
+        trie = instantiate(repo, m, cls)
+        for r, private in MINI_RULES:
+            call(trie, "add", r, private=private)
+    except (Unknown, Raised) as e:
+        ctx.undecided(rule, "SuffixTrie construction not interpretable: %s" % e)
+        return
+    n = 0
+    for h in MINI_HOSTS:
+        bare = h
+        if "://" in h:
+            bare = h.split("://")[1].split("/")[0].split(":")[0]
+        ref = _psl_reference(MINI_RULES, bare)
+        exp = {
+            "split": ref,
+            "extract_suffix": ref[1] if ref else None,
+            "extract_domain_name": None if ref is None else (ref[1] if not ref[0] else ref[0].split(".")[-1] + "." + ref[1]),
+            "has_valid_domain_name": ref is not None,
+        }
+        for name in ("split", "extract_suffix", "extract_domain_name", "has_valid_domain_name"):
+            n += 1
+            try:
+                got = call(trie, name, h)
+            except Raised as e:
+                got = "raises %s" % e.name
+            except Unknown as e:
+                ctx.undecided(rule, "SuffixTrie.%s(%r): %s" % (name, h, e))
+                continue
+            if isinstance(got, list):
+                got = tuple(got)
+            ctx.ob(rule, "%s/%s" % (name, h), got == exp[name],
+                   "over the rules %s, SuffixTrie.%s(%r) gives %r, the publicsuffix.org algorithm gives %r" % ([r for r, _ in MINI_RULES], name, h, got, exp[name]),
+                   site, witness=h, sample="%s(%r) -> %r" % (name, h, got))
+    ctx.require_instances(rule, n, 4 * len(MINI_HOSTS), "(method, host) cells")
